@@ -110,6 +110,37 @@ Theorem C20_pulse_exact :
 Proof. exact pulse_exact. Qed.
 Print Assumptions C20_pulse_exact.
 
+(* pulse_exact_gen: the same with NO restriction on the pulse instant (MUSCLE_TIME_NEVER included): exactly the attached
+   nodes with requested time <= now that are the root or have a finite aggregate fire; C20_never_request_not_fired spells
+   out the boundary: at now = MUSCLE_TIME_NEVER a node that asked for "never" with nothing finite below it does not fire *)
+Theorem C20_pulse_exact_gen :
+  forall (pl : nat -> nat -> N -> N -> list cop),
+    (forall x k now st, pl x k now st = []) ->
+    forall f s r now s',
+      Good nobody (nd s) -> is_root (nd s) r = true -> settled (nd s) r ->
+      agg (nd s r) = N.min (sched (nd s r)) (first_sched_agg (nd s) r) ->
+      top_pulse pl f s r now = Some s' ->
+      Good nobody (nd s') /\
+      exists d, evs s' = d ++ evs s /\ NoDup (map ev_node d) /\
+        (forall e, In e d -> exists y k, e = EPulse y k now (sched (nd s y)) /\ fires (nd s) r now y) /\
+        (forall y, fires (nd s) r now y -> exists k, In (EPulse y k now (sched (nd s y))) d) /\
+        (forall y, fires (nd s) r now y ->
+                   valid (nd s' y) = false /\ (parent (nd s' y) <> None -> cur (nd s' y) = LRecalc)).
+Proof. exact pulse_exact_gen. Qed.
+Print Assumptions C20_pulse_exact_gen.
+
+Theorem C20_never_request_not_fired :
+  forall (pl : nat -> nat -> N -> N -> list cop),
+    (forall x k now st, pl x k now st = []) ->
+    forall f s r s' y,
+      Good nobody (nd s) -> is_root (nd s) r = true -> settled (nd s) r ->
+      agg (nd s r) = N.min (sched (nd s r)) (first_sched_agg (nd s) r) ->
+      top_pulse pl f s r NEVER = Some s' ->
+      desc (nd s) r y -> y <> r -> agg (nd s y) = NEVER ->
+      forall k st, ~ In (EPulse y k NEVER st) (firstn (length (evs s') - length (evs s)) (evs s')).
+Proof. exact never_request_not_fired. Qed.
+Print Assumptions C20_never_request_not_fired.
+
 (* pulse_never_early_once (the "no loss" companion for callbacks that DO restructure the tree from inside Pulse():
    invalidate, detach, re-parent, destroy any node): every Pulse() call of the sweep is for a node whose requested
    time was valid and <= now when the sweep began, carries that time, no node is called twice, each called node is
